@@ -14,7 +14,7 @@ class C08(Property):
         cases = []
         k = 0
         while len(cases) < n:
-            opts, names = gen.gen_options(rng, features=("alt", "cmd", "pos"), max_depth=3, allow_catch=False)
+            opts, names = gen.gen_options(rng, features=("alt", "cmd", "pos", "modealt"), max_depth=3, allow_catch=False)
             if not common.has_kind(opts, ("cmd",)):
                 continue
             for _ in range(3):
